@@ -20,6 +20,7 @@ MODULES = {
     "C10": "harness.intervals",
     "C11": "harness.rewrite",
     "C14": "harness.dwarf",
+    "C16": "harness.abi_cpu",
     "C17": "harness.calls",
     "C18": "harness.retarget",
     "C19": "harness.delsym",
